@@ -1487,9 +1487,17 @@ func cmdDrive(args []string) int {
 			scen(21000+si, func(d *driver, logged func(model.Op) model.Val) {
 				cur := logged(model.Op{Op: "NewList", V: none, Vs: []model.Val{{K: "int", V: 7}}}).V
 				for k := 0; k < depth; k++ {
-					if k%2 == 0 {
+					// the child container stands last, first, or next to a second container (the innermost list, cell 1)
+					switch {
+					case k%2 == 0 && k%8 == 4:
+						cur = logged(model.Op{Op: "NewList", V: none, Vs: []model.Val{{K: "ref", V: cur}, {K: "int", V: k % 5}}}).V
+					case k%2 == 0 && k%8 == 6:
+						cur = logged(model.Op{Op: "NewList", V: none, Vs: []model.Val{{K: "ref", V: 1}, {K: "ref", V: cur}, {K: "int", V: k % 5}, {K: "ref", V: 1}}}).V
+					case k%2 == 0:
 						cur = logged(model.Op{Op: "NewList", V: none, Vs: []model.Val{{K: "int", V: k % 5}, {K: "ref", V: cur}}}).V
-					} else {
+					case k%6 == 5:
+						cur = logged(model.Op{Op: "NewObject", V: none, Vs: []model.Val{{K: "str", V: 1}, {K: "ref", V: cur}, {K: "str", V: 2}, {K: "ref", V: 1}, {K: "str", V: 3}, {K: "int", V: 1}}}).V
+					default:
 						cur = logged(model.Op{Op: "NewObject", V: none, Vs: []model.Val{{K: "str", V: 1}, {K: "ref", V: cur}}}).V
 					}
 				}
